@@ -35,6 +35,37 @@ type c20Case struct {
 	Spec        *sstruct.Spec `json:"spec"`
 	MutateClone bool          `json:"mutate_clone"`
 	Muts        []c20Mut      `json:"mutations"`
+	// Chain: names of subschema-bearing fields; a chain of that many nested subschemas (one per
+	// name, cyclically up to ChainLen) is hung below the root, so that the tree is deep.
+	Chain    []string `json:"chain,omitempty"`
+	ChainLen int      `json:"chain_len,omitempty"`
+}
+
+// appendChain hangs a chain of n nested subschemas below root, through the named fields in turn.
+func appendChain(root *jsonschema.Schema, fields []string, n int) {
+	cur := root
+	for i := 0; i < n && len(fields) > 0; i++ {
+		child := &jsonschema.Schema{Title: fmt.Sprintf("level %d", i)}
+		name := fields[i%len(fields)]
+		if i == 0 {
+			name = "AllOf" // the generated root may hold anything already; allOf can always take one more
+		}
+		fv := reflect.ValueOf(cur).Elem().FieldByName(name)
+		switch fv.Interface().(type) {
+		case *jsonschema.Schema:
+			fv.Set(reflect.ValueOf(child))
+		case []*jsonschema.Schema:
+			fv.Set(reflect.ValueOf(append(fv.Interface().([]*jsonschema.Schema), child)))
+		case map[string]*jsonschema.Schema:
+			if fv.IsNil() {
+				fv.Set(reflect.ValueOf(map[string]*jsonschema.Schema{}))
+			}
+			fv.SetMapIndex(reflect.ValueOf("next"), reflect.ValueOf(child))
+		default:
+			return
+		}
+		cur = child
+	}
 }
 
 // schemaList returns the Schema objects of a tree in a deterministic preorder.
@@ -161,6 +192,8 @@ func checkC20(c *c20Case, rec *ev.Recorder) *failure {
 		}
 		orig := sstruct.Build(c.Spec)
 		reference := sstruct.Build(c.Spec) // an independent, structurally equal tree
+		appendChain(orig, c.Chain, c.ChainLen)
+		appendChain(reference, c.Chain, c.ChainLen)
 		clone := orig.CloneSchemas()
 		if clone == nil {
 			return failf("CloneSchemas returned nil for a non-nil schema")
@@ -238,6 +271,14 @@ func TestC20(t *testing.T) {
 	rapid.Check(t, func(t *rapid.T) {
 		c := &c20Case{MutateClone: rapid.Bool().Draw(t, "mutateclone")}
 		c.Spec = sstruct.Gen(t, sstruct.Opts{MaxDepth: rapid.IntRange(1, 2).Draw(t, "depth"), NoRefs: true, Density: rapid.IntRange(2, 5).Draw(t, "density")})
+		if rapid.IntRange(0, 9).Draw(t, "deepchain") == 0 {
+			// a legitimate tree that is a few hundred subschemas deep
+			c.ChainLen = rapid.SampledFrom([]int{40, 101, 130, 257, 400}).Draw(t, "chainlen")
+			for i, k := 0, rapid.IntRange(1, 3).Draw(t, "chainfields"); i < k; i++ {
+				c.Chain = append(c.Chain, rapid.SampledFrom([]string{"Items", "Not", "Properties", "AllOf", "AdditionalProperties", "Contains", "Defs", "Then", "PropertyNames"}).Draw(t, "chainfield"))
+			}
+			rec.Class("tree:deep-chain")
+		}
 		for i, n := 0, rapid.IntRange(1, 6).Draw(t, "nmut"); i < n; i++ {
 			m := c20Mut{Node: rapid.IntRange(0, 40).Draw(t, "node")}
 			switch rapid.IntRange(0, 5).Draw(t, "op") {
